@@ -318,3 +318,29 @@ PROPS["C17"] = {
     "assumptions": COMMON_ASSUME + ["timers fire when due (no scheduling latency beyond the timer wheel's millisecond granularity)"],
     "design_ref": "DESIGN.md §7 C17",
 }
+
+PROPS["C15"] = {
+    "title": "A misbehaving peer cannot crash, wedge or spin an endpoint",
+    "module": "Theorems.C15",
+    "theorems": [
+        "Amqp.FrameHeader.amqp_header_never_panics",
+        "Amqp.FrameHeader.sasl_header_never_panics",
+        "Amqp.FrameHeader.amqp_header_accepts",
+        "Amqp.Settle.disposition_work_bounded",
+        "Amqp.Conn.illegal_frame_refused",
+        "Amqp.Conn.discarding_wait_ignores",
+        "Amqp.Conn.close_is_last",
+        "Amqp.SessLife.error_end_waits_for_peer_end",
+        "Amqp.SessLife.end_is_last",
+        "Amqp.RecvCredit.enforces",
+        "Amqp.Codec.decoder_guards_present",
+        "Amqp.Codec.limits",
+    ],
+    "harness": ["hostile"],
+    "gen_files": ["Amqp/Gen/FrameHeaderKernels.lean", "Amqp/Gen/Fsm.lean", "Amqp/Gen/SettleKernels.lean", "Amqp/Gen/Codes.lean"],
+    "technique": "Lean 4 proofs that each layer's reaction to untrusted input is total, bounded and scoped (frame header model with the length guard read off the source; composition of the C02/C04/C09/C12/C13 theorems) + engine-level hostile-peer runs with panic counting, virtual-time limits, allocation and real-time measurement",
+    "level_text": "Machine-checked: for every byte string the AMQP and the SASL frame decoder's header step returns a header or an error, never the out-of-bounds panic of Buf::get_* (the length guard and its position before the first read are regenerated from frames/amqp.rs and frames/sasl.rs), and a header is accepted only with doff 2 and the layer's frame type; whatever range a disposition names, no more delivery-ids are visited than deliveries are outstanding; a frame illegal for the connection's state is answered by one close with an error, nothing is handed on, and everything but the peer's close is then ignored; a frame the session cannot act on ends that session with an error, after which it discards until the peer's end and keeps its channel until then, so the connection and its other sessions are not affected; a transfer beyond the issued credit is refused (C09); the body decoder's guards and limits (C04). Partial by nature: that nothing panics, blocks forever or does disproportionate work in the running program is not a statement about these models; it is measured by runs in which a real client (connection, session, sender, receiver) receives one hostile item (raw bytes with length fields 0..7 and beyond 2^31, every kind of bad header, random / truncated / 5000-deep / 4-GiB-claiming bodies, a score of well-formed protocol violations, a first frame that is not an open) from a peer that then behaves, and afterwards uses and tears down everything under a 10-virtual-second limit per call, with panics counted by a hook, bytes allocated and real time bounded, and fatal violations required to surface as an error of some later call.",
+    "level_note": "Trusted: Lean kernel; rs2lean; the hand-written header model (compared with the two real decoders on all short byte strings over a small alphabet and on random ones); the hostile item generator. Runtime behaviour the models cannot exhibit: panics in code not modelled, scheduler starvation, memory use — covered only as far as the measured runs go. A peer that never answers a close / end / detach is outside this check (the scripted peer is polite after its one hostile item); timeouts on teardown are the application's (no built-in deadline).",
+    "assumptions": COMMON_ASSUME + ["after its hostile item the peer answers close, end and detach"],
+    "design_ref": "DESIGN.md §7 C15",
+}
